@@ -6,6 +6,8 @@ from aiortc.utils import uint32_add, uint32_gt
 
 BURST_DELTA_THRESHOLD_MS = 5
 
+MAX_REMB_SSRCS = 255
+
 # overuse detector
 MAX_ADAPT_OFFSET_MS = 15
 MIN_NUM_DELTAS = 60
@@ -525,7 +527,8 @@ class RemoteBitrateEstimator:
         timestamp = abs_send_time << 8
         update_estimate = False
 
-        # make note of SSRC
+        # make note of SSRC, most recently seen last
+        self.ssrcs.pop(ssrc, None)
         self.ssrcs[ssrc] = arrival_time_ms
 
         # update incoming bitrate
@@ -574,6 +577,7 @@ class RemoteBitrateEstimator:
             )
             if target_bitrate is not None:
                 self.last_update_ms = arrival_time_ms
-                return target_bitrate, list(self.ssrcs.keys())
+                # a REMB message cannot list more than 255 SSRCs
+                return target_bitrate, list(self.ssrcs.keys())[-MAX_REMB_SSRCS:]
 
         return None
